@@ -109,43 +109,47 @@ Section Resolving.
     Forall (fun a => a = S) (if sgn then evens l else odds l) ->
     Forall (fun r => r = Bv) (if sgn then odds l else evens l) ->
     forall v, den_s eqb sgn l v
-              = (if sgn then 1 else -1)
-                * (Z.of_nat (length (if sgn then evens l else odds l)) * ind eqb S v
-                   - Z.of_nat (length (if sgn then odds l else evens l)) * ind eqb Bv v).
+              = Z.of_nat (length (if sgn then evens l else odds l)) * ind eqb S v
+                - Z.of_nat (length (if sgn then odds l else evens l)) * ind eqb Bv v.
   Proof.
     induction l as [|x t IH]; intros sgn H1 H2 v.
     - destruct sgn; cbn; lia.
     - rewrite den_s_cons.
       change (evens (x :: t)) with (x :: odds t) in *. change (odds (x :: t)) with (evens t) in *.
       destruct sgn; cbn [negb].
-      + inversion H1; subst. rewrite (IH false) by assumption. cbn [length sg]. rewrite Nat2Z.inj_succ. ring.
-      + inversion H2; subst. rewrite (IH true) by assumption. cbn [length sg]. rewrite Nat2Z.inj_succ. ring.
+      + inversion H1; subst. rewrite (IH false) by assumption. cbn [length sg]. rewrite Nat2Z.inj_succ. nia.
+      + inversion H2; subst. rewrite (IH true) by assumption. cbn [length sg]. rewrite Nat2Z.inj_succ. nia.
   Qed.
 
   Lemma evens_odds_length (l : list T) :
     Nat.odd (length l) = true -> length (evens l) = S (length (odds l)).
   Proof.
-    assert (G : forall n (l : list T), length l <= n ->
+    assert (G : forall (n : nat) (l : list T), (length l <= n)%nat ->
                 (Nat.odd (length l) = true -> length (evens l) = S (length (odds l)))
                 /\ (Nat.even (length l) = true -> length (evens l) = length (odds l))).
     { induction n as [|n IH]; intros l0 Hl.
       - destruct l0; [|cbn in Hl; lia]. cbn. split; [discriminate|reflexivity].
-      - destruct l0 as [|a [|b t]]; cbn [length evens odds]; try (split; [reflexivity|discriminate]).
-        + split; [discriminate|reflexivity].
-        + cbn [length] in Hl. destruct (IH t) as (I1 & I2); [lia|].
-          cbn [Nat.odd Nat.even]. split; intros H.
-          * change (Nat.odd (S (S (length t)))) with (Nat.odd (length t)) in H.
-            rewrite (I1 H). reflexivity.
-          * change (Nat.even (S (S (length t)))) with (Nat.even (length t)) in H.
-            rewrite (I2 H). reflexivity. }
+      - destruct l0 as [|a [|b t]].
+        + cbn. split; [discriminate|reflexivity].
+        + cbn. split; [reflexivity|discriminate].
+        + change (evens (a :: b :: t)) with (a :: evens t).
+          change (odds (a :: b :: t)) with (b :: odds t).
+          cbn [length] in *. destruct (IH t) as (I1 & I2); [lia|].
+          change (Nat.odd (S (S (length t)))) with (Nat.odd (length t)).
+          change (Nat.even (S (S (length t)))) with (Nat.even (length t)).
+          split; intros H; [rewrite (I1 H)|rewrite (I2 H)]; reflexivity. }
     intros H. now apply (G (length l) l).
   Qed.
 
   Lemma map_evens {U} (g : T -> U) l : evens (map g l) = map g (evens l)
   with map_odds {U} (g : T -> U) l : odds (map g l) = map g (odds l).
   Proof.
-    - destruct l as [|x t]; cbn [map evens]; [reflexivity|]. now rewrite map_odds.
-    - destruct l as [|x t]; cbn [map odds]; [reflexivity|]. now rewrite map_evens.
+    - destruct l as [|x t]; [reflexivity|].
+      change (evens (map g (x :: t))) with (g x :: odds (map g t)).
+      change (evens (x :: t)) with (x :: odds t). cbn [map]. now rewrite map_odds.
+    - destruct l as [|x t]; [reflexivity|].
+      change (odds (map g (x :: t))) with (evens (map g t)).
+      change (odds (x :: t)) with (evens t). apply map_evens.
   Qed.
 
   Lemma rum_same_sides l S Bv :
@@ -158,8 +162,8 @@ Section Resolving.
     { rewrite map_odds. apply Forall_map. eapply Forall_impl; [|exact HB]. cbn. now intros a ->. }
     assert (Ho' : Nat.odd (length (map g l)) = true) by now rewrite map_length.
     pose proof (evens_odds_length (map g l) Ho') as Len.
-    pose proof (den_sides (map g l) (g S) (g Bv) true Hs' Hb') as D. fold (den eqb (map g l)) in D.
-    apply (trivial_merge_spec eqb eqb_spec); [assumption|].
+    pose proof (den_sides (map g l) (g S) (g Bv) true Hs' Hb') as D.
+    apply (trivial_merge_spec eqb eqb_spec); [assumption|]. unfold Resolves, den.
     set (k := Z.of_nat (length (odds (map g l)))) in *.
     assert (Hk : Z.of_nat (length (evens (map g l))) = k + 1) by (rewrite Len; unfold k; lia).
     assert (K0 : 0 <= k) by (unfold k; lia).
